@@ -167,7 +167,7 @@ fn noise_string(mut idx: usize, len: usize) -> String {
 pub fn run() -> i32 {
     let mut r = Report::new("C02");
     let thorough = r.thorough();
-    r.rule = "four exhaustive families, every case through compile + Rule::apply per word and through run / trace_changes / get_trace_string: (1) every rule of rulegen(n) x hand-shaped words; (1c, quick) every two-item environment decoration of five fixed input/output skeletons; (2) every rule at token-edit distance 1 (delete, duplicate, replace by / insert each of 48 tokens) from a frozen corpus of documented, test-suite and example-project rules x 8 words; (3) every string of <= m chars over a 48-char alphabet as rule, word, deromaniser and romaniser; (4) over-large and odd numeric literals in every position that takes digits; (6) every feature / node / suprasegmental spelling and 13 near-names x 11 value forms (binary, alpha, inverted alpha, capital alpha, last Greek letter, malformed) x 12 slots (input, output, context, exception, syllable, structure, insertion, metathesis, both alias directions) and numeric forms x 5 slots; (5) every romaniser whose input is a sequence of 1..k elements over 11 element kinds (segments and matrices with length / stress modifiers, `$`) x 3 replacement kinds, and every deromaniser with such an output, on 10 words with long segments at syllable ends. Oracle: returns Ok or Err within the step budget 2 000 + 20 (|w|+1)(|r|+1); any panic or budget exhaustion is a violation. Non-trivial = returned Ok.".into();
+    r.rule = "four exhaustive families, every case through compile + Rule::apply per word and through run / trace_changes / get_trace_string: (1) every rule of rulegen(n) x hand-shaped words (thorough: all 7.7 M rules of size 4, on eight words); (1d, thorough) every three-item context / exception of five fixed skeletons; (1c, quick) every two-item environment decoration of five fixed input/output skeletons; (2) every rule at token-edit distance 1 (delete, duplicate, replace by / insert each of 48 tokens) from a frozen corpus of documented, test-suite and example-project rules x 8 words; (3) every string of <= m chars over a 48-char alphabet as rule, word, deromaniser and romaniser; (4) over-large and odd numeric literals in every position that takes digits; (6) every feature / node / suprasegmental spelling and 13 near-names x 11 value forms (binary, alpha, inverted alpha, capital alpha, last Greek letter, malformed) x 12 slots (input, output, context, exception, syllable, structure, insertion, metathesis, both alias directions) and numeric forms x 5 slots; (5) every romaniser whose input is a sequence of 1..k elements over 11 element kinds (segments and matrices with length / stress modifiers, `$`) x 3 replacement kinds, and every deromaniser with such an output, on 10 words with long segments at syllable ends. Oracle: returns Ok or Err within the step budget 2 000 + 20 (|w|+1)(|r|+1); any panic or budget exhaustion is a violation. Non-trivial = returned Ok.".into();
     r.assumptions.push("release build semantics (debug_assert off), as shipped".into());
     r.assumptions.push("stack overflow / allocation failure would abort the check (exit code != 0,1), never pass silently".into());
     let mut tot = Acc::default();
@@ -179,7 +179,6 @@ pub fn run() -> i32 {
     par_fold(bases.len(), 4, Acc::default, |i, a| {
         let (b, rest) = &bases[i];
         for rule in rulegen::expand(b, *rest) {
-            if thorough && rule.n_items() == 4 && !rule.has(&["⟨", "%", "$", "...", "(", "=", "*", "&", " 1", "long", "{"]) { continue; }
             if thorough && rule.n_items() == 4 { rule_case(&rule.text(), &W8, "grammar", a); } else { rule_case(&rule.text(), &words, "grammar", a); }
         }
     }, |a| f1.merge(a));
@@ -197,6 +196,20 @@ pub fn run() -> i32 {
         r.boxes.push(json!({"box": "1c two-item environments on 5 skeletons", "skeletons": sk.len(), "rules": erules.len(), "calls": f1c.evals, "ok": f1c.ok, "err": f1c.err, "crash_classes": f1c.crashes.len()}));
         r.guard(sk.len() == 5 && f1c.ok > 10_000, "family 1c: five skeletons found, more than 10k calls returned Ok");
         tot.merge(f1c);
+    }
+    // ---- family 1d (thorough): three-item environments on the five skeletons (insertion, deletion, substitution, length, prosody): the shapes where
+    // partial matches of a longer context restart, on eight words
+    if thorough {
+        let sk: Vec<(rulegen::GenRule, usize)> = rulegen::bases_of_size(2).into_iter().filter(|(b, _)| { let t = b.text(); ["a > i", "C > *", "* > i", "V > [+long]", "% > [+stress]"].contains(&t.as_str()) }).collect();
+        let mut f1d = Acc::default();
+        let mut n_rules = 0u64;
+        for (b, _) in &sk {
+            let erules: Vec<String> = rulegen::expand(b, 3).into_iter().filter(|r| r.ctx.len() + r.exc.len() == 1 && !r.ctx_set && !r.exc_set).map(|r| r.text()).collect();
+            n_rules += erules.len() as u64;
+            par_fold(erules.len(), 256, Acc::default, |i, a| rule_case(&erules[i], &W8, "env3", a), |a| f1d.merge(a));
+        }
+        r.boxes.push(json!({"box": "1d three-item contexts / exceptions on 5 skeletons", "rules": n_rules, "calls": f1d.evals, "ok": f1d.ok, "err": f1d.err, "crash_classes": f1d.crashes.len()}));
+        tot.merge(f1d);
     }
     // ---- family 1b: cursor arithmetic (length-changing, set and variable elements in multi-element substitutions)
     let cin = ["V:[+long]", "a:[-long]", "{p,a}", "C", "V", "C=1", "[+long]"];
